@@ -148,6 +148,12 @@ type Batch struct {
 	// CutPayload drops bytes from the end of the compressed payload.
 	CutRecords int
 	CutPayload int
+
+	// Hostile v2 batches (valid framing, length and CRC around a record section the
+	// format does not allow): RawRecords, when non-nil, replaces the encoded records
+	// (before compression); CountOverride, when non-nil, replaces the record count.
+	RawRecords    []byte
+	CountOverride *int32
 }
 
 // First is the first offset covered by the batch.
@@ -181,7 +187,9 @@ type Aborted struct {
 	LastOffset  int64
 }
 
-func (a Aborted) String() string { return fmt.Sprintf("{pid=%d first=%d}", a.ProducerID, a.FirstOffset) }
+func (a Aborted) String() string {
+	return fmt.Sprintf("{pid=%d first=%d}", a.ProducerID, a.FirstOffset)
+}
 
 // Log is a partition response: batches in offset order and everything the broker's
 // aborted-transaction index knows around them, in presentation order.
